@@ -570,9 +570,9 @@ class AdjointLinearOperator(LinearOperator):
             (_shape2str(self.shape), _indent(self.obj.__repr__(), 3))
 
     def _mv(self, x: torch.Tensor) -> torch.Tensor:
-        if not self.obj.is_rmv_implemented:
-            raise RuntimeError("The ._rmv of must be implemented to call .H.mv()")
-        return self.obj._rmv(x)
+        # use the public rmv, which falls back to the adjoint trick if the
+        # operator does not implement ._rmv
+        return self.obj.rmv(x)
 
     def _rmv(self, x: torch.Tensor) -> torch.Tensor:
         return self.obj._mv(x)
